@@ -3,11 +3,22 @@
 //! Every sub-command reads ndjson cases (usually REPLAY lines produced by TLC) and writes ndjson
 //! observations.  The harness never decides a property: it only reports what the implementation did.
 //! A panic of the code under test is data (`"panic"` outcome), never a harness failure.
+//!
+//! Sub-commands are namespaced per engine so that the engines can grow independently:
+//!   classes, names            C18            (chars.rs)
+//!   dom-*, replay-dom         C12..C16       (dom*.rs, world.rs)
+//!   doc-*                     C01 C02 C03 C04 C10 C11   (docs.rs and docs_*.rs)
+//!   xp-*                      C05 C06 C07 C08 C09 C19   (xp.rs and xp_*.rs)
+//!   cli-*                     C17            (cli.rs)
 
 mod chars;
+mod cli;
+mod docs;
 mod domreplay;
+mod domtext;
 mod util;
 mod world;
+mod xp;
 
 use std::env;
 use std::process::exit;
@@ -22,10 +33,15 @@ fn main() {
         exit(2);
     }
     let rest = &args[2..];
-    let code = match args[1].as_str() {
+    let sub = args[1].as_str();
+    let code = match sub {
         "classes" => chars::classes(rest),
         "names" => chars::names(rest),
         "replay-dom" => domreplay::replay(rest),
+        s if s.starts_with("dom-") => domtext::main(s, rest),
+        s if s.starts_with("doc-") => docs::main(s, rest),
+        s if s.starts_with("xp-") => xp::main(s, rest),
+        s if s.starts_with("cli-") => cli::main(s, rest),
         other => {
             eprintln!("unknown subcommand {}", other);
             2
